@@ -17,10 +17,12 @@ cd $WT
 RUNCMD=$(echo "$RUN" | sed -e 's/CARGO_NET_OFFLINE=true//' -e 's#cd /tmp/wt_[A-Za-z0-9_]* *&& *##' -e 's#CARGO_TARGET_DIR=[^ ]*##')
 echo "== demo on unchanged tree: $RUNCMD"
 ( eval "$RUNCMD" ) > $WT/demo_clean.log 2>&1; R1=$?
+rm -f "$WT/$PLACE"
 git apply "$SD/patch.diff" || { echo "PATCH DOES NOT APPLY"; exit 2; }
 echo "== existing suite with patch"
 cargo test --workspace --no-fail-fast --offline > $WT/suite.log 2>&1; R2=$?
 cargo test --offline --features "tempering parallel-tempering serialize" --lib > $WT/suite2.log 2>&1; R2b=$?
+cp "$SD/$DEMOF" "$WT/$PLACE"
 echo "== demo with patch"
 ( eval "$RUNCMD" ) > $WT/demo_patched.log 2>&1; R3=$?
 PASSN=$(grep -h "^test result" $WT/suite.log | awk '{s+=$4} END{print s}')
